@@ -67,6 +67,9 @@ func (g *G) cell(level int) uint64 {
 
 // cellUpTo: a cell of level <= maxLevel (so that maxLevel-level deeper levels exist below it)
 func (g *G) cellUpTo(maxLevel int) uint64 {
+	if g.n(4) == 0 {
+		return g.cell(maxLevel) // the deeper levels then end exactly at the leaf level
+	}
 	l := g.level()
 	if l > maxLevel {
 		l = g.n(maxLevel + 1)
